@@ -137,7 +137,7 @@ Qed.
 Lemma safe_weffect s w s' : w < par c -> safe s -> weffect c s w s' -> safe s'.
 Proof.
   intros Hw HS He. destruct WF as [W1 W2 W3 W4 W5].
-  destruct He as [i a t rest Hsrc Hc Hb | Hsrc Hc | i Hsrc Hc Hb Hcl | ctl' Hcn
+  destruct He as [i a t rest Hsrc Hc Hb | Hsrc Hc | i Hsrc Hc Hb Hcl | ctl' Hcn Hdue Hsl Hsls
                  | eof a k0 v rest Hc Hs Hcl | eof k0 t r rest Hc Hb | dropped Hp Hnd Hnr Hnc Hwhy | eof a k0 v rest Hc Hs Hcl].
   - eapply (safe_ctl s w (wc (take c s w a))); simpl; auto; try congruence.
     + apply take_not_done.
